@@ -101,9 +101,20 @@ PROPS["C09"] = dict(
                "variants (`concurrent` feature) are not built.",
     explanation=MIX)
 
+PROPS["C17"] = dict(
+    level="other", claimed=True,
+    level_text="Bounded stand-in only (native execution of the real constraint evaluator and composition-polynomial code against "
+               "the definition computed directly in the check from the trace polynomials, the constraint formulas, the documented "
+               "divisors and naively interpolated value polynomials). No deductive contract: the evaluator, periodic table and "
+               "boundary groups are generic over a user Air with iterator-heavy bodies, and the statement is an identity over "
+               "field values.",
+    level_note="Bounded as stated in coverage.native_bounded_standins: one AIR. The verifier's side (its evaluation from an opened "
+               "frame agrees) is observed by the pipeline stand-ins of C04 (honest proofs pass the OOD consistency check), not here. "
+               "Auxiliary segments and Lagrange kernel constraints are exercised only by those pipelines.",
+    explanation=MIX)
+
 NOT_APPLICABLE.update({
     "C01": "whole-protocol completeness over all AIR programs: no per-function contract carries it (DESIGN.md 4.C01)",
     "C02": "cryptographic soundness is probabilistic and adversarial, not a safety property of any function (DESIGN.md 4.C02)",
     "C14": "neither Kani nor Verus can execute rayon; the suite is built without the `concurrent` feature (DESIGN.md 4.C14)",
-    "C17": "needs polynomial-identity reasoning across evaluator, periodic table and boundary groups generic over a user Air (DESIGN.md 4.C17)",
 })
